@@ -355,7 +355,8 @@ class Env:
     def __init__(self, specs, mount):
         self.ns = collections.OrderedDict()
         for s in specs:
-            self.ns[s['uid']] = U.Namespace(s)
+            parent = self.ns.get(s.get('import_from')) if s.get('imported') else None
+            self.ns[s['uid']] = U.Namespace(s, parent)
         self.fns = {}
         self.shared = {}
         self.mount = mount
@@ -760,6 +761,12 @@ def reference_request(plan, fnops, rec):
             need.append(op['val_spec'])
         op['file'] = 'cfg.ref'
     op.pop('cancel', None)
+    for u in list(need):
+        par = specs_by_uid[u].get('import_from')
+        if specs_by_uid[u].get('imported') and par and par not in need:
+            need.append(par)
+    # parents first
+    need.sort(key=lambda u: 0 if not specs_by_uid[u].get('imported') else 1)
     return {'specs': [specs_by_uid[u] for u in need], 'mk': mk, 'op': op}
 
 
